@@ -353,7 +353,7 @@ def context_cases(f, tier):
             for vs in list(product(nilvals, repeat=2)) + [("nil", "nil", "nil"), ("nil", "1", "nil"), ("nil",)]:
                 n = len(vs)
                 sp = []
-                for c in ("if", "while", "val", "tail"):
+                for c in ("if", "while", "whilec", "val", "tail"):
                     for p in all_patterns(n) if n <= 2 else LATIN3:
                         sp.append((p, c, "ref"))
                         sp.append((p, c, "fv"))
